@@ -95,6 +95,9 @@ func init() {
 		"slices.Contains":          hSlicesContains,
 		"errors.Is":                hErrorsIs,
 		"errors.Join":              hErrorsJoin,
+		"(*sync/atomic.Bool).Load":  hAtomicBool("Load"),
+		"(*sync/atomic.Bool).Store": hAtomicBool("Store"),
+		"(*sync/atomic.Bool).Swap":  hAtomicBool("Swap"),
 		"errors.As":                hErrorsAs,
 		"(*sync.WaitGroup).Done":   hGhostCount("wgDone"),
 		"(*sync.WaitGroup).Add":    hGhostCount("wgAdd"),
@@ -299,6 +302,31 @@ func containsTerm(st *State, s Val, v Val) *Term {
 func hSlicesContains(x *Exec, fr *Frame, st *State, site ssa.Instruction, callee *ssa.Function, args []Val, k Kont) {
 	x.assumeNote("assumed contract slices.Contains: reports whether v is present in s (exists k: s[k] == v); pure")
 	k(st, Val{T: types.Typ[types.Bool], C: []*Term{containsTerm(st, args[0], args[1])}}, false)
+}
+
+// atomic.Bool as a plain cell (sequential semantics; interleavings are outside the verifier): the flag lives in
+// the unexported field v of the structure the receiver points to.
+func hAtomicBool(op string) stdHandler {
+	return func(x *Exec, fr *Frame, st *State, site ssa.Instruction, callee *ssa.Function, args []Val, k Kont) {
+		x.assumeNote("assumed contract sync/atomic.Bool." + op + ": sequential load / store of the flag (no interleaving is modelled)")
+		x.nilCheck(fr, st, args[0], site.Pos(), "atomic.Bool."+op)
+		lv := derefPtr(args[0])
+		cell := &LVal{Prefix: lv.Prefix, Ref: lv.Ref, Idx: lv.Idx, Path: lv.Path + ".v", T: types.Typ[types.Uint32]}
+		old := x.loadWF(st, cell)
+		oldB := Val{T: types.Typ[types.Bool], C: []*Term{Not(Eq(old.C[0], BVConst(0, 32)))}}
+		switch op {
+		case "Load":
+			k(st, oldB, false)
+		case "Store", "Swap":
+			nv := Ite(args[1].C[0], BVConst(1, 32), BVConst(0, 32))
+			x.checkedStore(fr, st, cell, Val{T: types.Typ[types.Uint32], C: []*Term{nv}}, site.Pos())
+			if op == "Store" {
+				k(st, Val{T: types.NewTuple()}, false)
+			} else {
+				k(st, oldB, false)
+			}
+		}
+	}
 }
 
 // errors.Join(errs...): nil exactly when every element is nil; reads its argument only.
